@@ -221,9 +221,15 @@ func (c *AbstractVariantOperations) Div(
 	// Performs operation.
 	switch value1.Type() {
 	case Integer:
+		if value2.AsInteger() == 0 {
+			return nil, errors.NewUnsupportedError("", "DIV_BY_ZERO", "Division by zero")
+		}
 		result.SetAsInteger(value1.AsInteger() / value2.AsInteger())
 		return result, nil
 	case Long:
+		if value2.AsLong() == 0 {
+			return nil, errors.NewUnsupportedError("", "DIV_BY_ZERO", "Division by zero")
+		}
 		result.SetAsLong(value1.AsLong() / value2.AsLong())
 		return result, nil
 	case Float:
@@ -264,9 +270,15 @@ func (c *AbstractVariantOperations) Mod(
 	// Performs operation.
 	switch value1.Type() {
 	case Integer:
+		if value2.AsInteger() == 0 {
+			return nil, errors.NewUnsupportedError("", "DIV_BY_ZERO", "Division by zero")
+		}
 		result.SetAsInteger(value1.AsInteger() % value2.AsInteger())
 		return result, nil
 	case Long:
+		if value2.AsLong() == 0 {
+			return nil, errors.NewUnsupportedError("", "DIV_BY_ZERO", "Division by zero")
+		}
 		result.SetAsLong(value1.AsLong() % value2.AsLong())
 		return result, nil
 	}
@@ -454,6 +466,10 @@ func (c *AbstractVariantOperations) Lsh(
 		return nil, err
 	}
 
+	if value2.AsInteger() < 0 {
+		return nil, errors.NewUnsupportedError("", "NEGATIVE_SHIFT", "Shift count cannot be negative")
+	}
+
 	// Performs operation.
 	switch value1.Type() {
 	case Integer:
@@ -489,6 +505,10 @@ func (c *AbstractVariantOperations) Rsh(
 	value2, err = c.Overrides.Convert(value2, Integer)
 	if err != nil {
 		return nil, err
+	}
+
+	if value2.AsInteger() < 0 {
+		return nil, errors.NewUnsupportedError("", "NEGATIVE_SHIFT", "Shift count cannot be negative")
 	}
 
 	// Performs operation.
@@ -975,10 +995,16 @@ func (c *AbstractVariantOperations) GetElement(
 	index := int(value2.AsInteger())
 
 	if value1.Type() == Array {
+		if index < 0 || index >= value1.Length() {
+			return nil, errors.NewUnsupportedError("", "INDEX_OUT_OF_RANGE", "Index is out of range")
+		}
 		return value1.GetByIndex(index), nil
 	} else if value1.Type() == String {
 		runes := []rune(value1.AsString())
-		result.SetAsString(string(runes[value2.AsInteger()]))
+		if index < 0 || index >= len(runes) {
+			return nil, errors.NewUnsupportedError("", "INDEX_OUT_OF_RANGE", "Index is out of range")
+		}
+		result.SetAsString(string(runes[index]))
 		return result, nil
 	}
 
